@@ -85,7 +85,9 @@ uint StatCoder::decodeString(ChunkScan *c) {
   if (c->advanced != 0) {
     // Checking if a full string is encoded in these advanced chars
     c->str[prevLen + c->advanced] = 0;
-    nextLen = strlen((char *)(c->str + prevLen));
+    // (the two first chars encode the prefix length and they can be '\0')
+    nextLen = (c->advanced < 2) ? c->advanced : 2;
+    nextLen += strlen((char *)(c->str + prevLen + nextLen));
 
     if ((nextLen < c->advanced) && (nextLen > 0)) {
       uint read = prevLen + VByte::decode(&(c->strLen), c->str + prevLen);
